@@ -97,6 +97,10 @@ func runSurvey(e *Engine, what string) {
 			return
 		}
 		e.dumpAnchors(names)
+	case "softpairs":
+		for _, sp := range e.softPairs() {
+			fmt.Printf("%s | %s | %s | %s\n", sp.Callee, sp.Sentinel, sp.Fn, sp.Pos)
+		}
 	case "usub":
 		// unsigned `x - const` not dominated by a guard on x (cross-reference only)
 		for _, fn := range e.ScopeFuncs() {
